@@ -1,0 +1,126 @@
+//go:build verif
+
+package snowflake
+
+// Contracts for govc (contract-based deductive verification, see /verif/DESIGN.md).
+// Comments only; compiled only with the build tag `verif`.
+
+//@ arith bv
+//@ property C06 C07
+//@ purevar _HookNow
+//@ opaquediv 1000000
+//@ assumption the bit layout is one of the three the package documents (_nodeBits in {8,9,10}); Setup can only install those
+//@ assumption HardNode/MonoNode: the millisecond clock minus epoch stays below the timestamp ceiling tmax() (beyond it a 63-bit id cannot hold the time)
+//
+//@ pure layoutOK() bool = _nodeBits == 8 || _nodeBits == 9 || _nodeBits == 10
+//@ pure tS() uint8 = _nodeBits + 12
+//@ pure nS() uint8 = ite(_nodeAtLowest, uint8(0), uint8(12))
+//@ pure sS() uint8 = ite(_nodeAtLowest, _nodeBits, uint8(0))
+//@ pure nodeMax() int64 = (int64(1) << _nodeBits) - 1
+//@ pure tmax() int64 = (int64(1) << (63 - tS())) - 1
+//@ pure lowmask() int64 = (int64(1) << tS()) - 1
+//@ pure compose(t int64, n int64, s int64) int64 = t << tS() | n << nS() | s << sS()
+//@ pure ninv(t int64, n int64, s int64) bool = 0 <= n && n <= nodeMax() && 0 <= s && s <= 4095 && 0 <= t && t <= tmax()
+//@ pure lexlt(t1 int64, s1 int64, t2 int64, s2 int64) bool = t1 < t2 || (t1 == t2 && s1 < s2)
+//@ pure nowms(e int64) int64 = lastUnixNano / 1000000 - e
+//
+//@ lemma fields_of_compose(t int64, n int64, s int64)
+//@   requires layoutOK() && ninv(t, n, s)
+//@   ensures #nonneg compose(t, n, s) >= 0
+//@   ensures #time compose(t, n, s) >> tS() == t
+//@   ensures #node (compose(t, n, s) >> nS()) & nodeMax() == n
+//@   ensures #step (compose(t, n, s) >> sS()) & 4095 == s
+//
+//@ lemma compose_mono(t1 int64, s1 int64, t2 int64, s2 int64, n int64)
+//@   requires layoutOK() && ninv(t1, n, s1) && ninv(t2, n, s2)
+//@   ensures #order lexlt(t1, s1, t2, s2) <==> compose(t1, n, s1) < compose(t2, n, s2)
+//
+//@ lemma id_order(a int64, b int64)
+//@   requires layoutOK() && a >= 0 && b >= 0
+//@   ensures #pairs a < b <==> (a >> tS() < b >> tS() || (a >> tS() == b >> tS() && a & lowmask() < b & lowmask()))
+//
+//@ lemma cn_left_digits(id int64)
+//@   property C07
+//@   requires layoutOK() && id >= 0
+//@   ensures #seven 0 <= id & lowmask() && id & lowmask() < 10000000
+//@   ensures #recombine (id >> tS()) << tS() | (id & lowmask()) == id
+//
+//@ pure msOf(t time.Time) int64 = spec_unix(t) * 1000 - _epoch
+//@ pure secOK(t time.Time) bool = -1125899906842624 <= spec_unix(t) && spec_unix(t) <= 1125899906842624 && -1125899906842624 <= _epoch && _epoch <= 1125899906842624
+//
+//@ func TimeIDRange
+//@   property C07
+//@   requires layoutOK() && secOK(t) && 0 <= msOf(t) && msOf(t) <= tmax()
+//@   ensures #exact forall id int64 :: id >= 0 ==> ((min <= id && id <= max) <==> id >> tS() == msOf(t))
+//@   ensures #order 0 <= min && min <= max
+//@   modifies
+//
+//@ func TimeBetweenID
+//@   property C07
+//@   requires layoutOK() && secOK(begin) && secOK(end) && 0 <= msOf(begin) && msOf(begin) <= msOf(end) && msOf(end) <= tmax()
+//@   ensures #exact forall id int64 :: id >= 0 ==> ((min <= id && id <= max) <==> (msOf(begin) <= id >> tS() && id >> tS() <= msOf(end)))
+//@   ensures #order 0 <= min && min <= max
+//@   modifies
+//
+//@ func figureShift
+//@   ensures timeShift == tS() && nodeShift == nS() && stepShift == sS()
+//@   modifies
+//
+//@ func IDFields
+//@   requires layoutOK()
+//@   ensures #split timeF == id >> tS() && node == (id >> nS()) & nodeMax() && step == (id >> sS()) & 4095
+//@   ensures #recombine id >= 0 ==> ninv(timeF, node, step) && compose(timeF, node, step) == id
+//@   modifies
+//
+//@ func IDParse
+//@   requires layoutOK()
+//@   ensures #split timeMs == (id >> tS()) + _epoch && node == (id >> nS()) & nodeMax() && step == (id >> sS()) & 4095
+//@   modifies
+//
+//@ guarded HardNode.time by HardNode.mu
+//@ guarded HardNode.step by HardNode.mu
+//@ monitor HardNode.mu
+//@   invariant 0 <= self.step && self.step <= 4095
+//
+//@ func HardNode.Generate
+//@   property C06
+//@   requires layoutOK() && 0 <= n.node && n.node <= nodeMax() && !held(n.mu)
+//@   ensures #fields 0 <= cs(n.time) && cs(n.time) < tmax() && nowms(n.epoch) <= tmax() ==> result == compose(n.time, n.node, n.step) && ninv(n.time, n.node, n.step)
+//@   ensures #increasing 0 <= cs(n.time) && cs(n.time) < tmax() && nowms(n.epoch) <= tmax() ==> result > compose(cs(n.time), n.node, cs(n.step))
+//@   ensures #lex cs(n.time) < 9223372036854775807 ==> lexlt(cs(n.time), cs(n.step), n.time, n.step)
+//@   ensures #notearlier cs(n.time) < 9223372036854775807 ==> n.time >= nowms(n.epoch)
+//@   ensures #frame n.node == old(n.node) && n.epoch == old(n.epoch)
+//@   modifies n.time, n.step, lastUnixNano
+//
+//@ func NewNode
+//@   property C06
+//@   requires layoutOK()
+//@   ensures #range result1 != nil <==> (node < 0 || node > nodeMax())
+//@   ensures #isnode result1 == nil ==> tag(result0) == tag(Node(*HardNode(nil))) && isfresh(*HardNode(result0)) && *HardNode(result0) != nil
+//@   ensures #node result1 == nil ==> (*HardNode(result0)).node == node && 0 <= (*HardNode(result0)).step && (*HardNode(result0)).step <= 4095
+//@   ensures #restart result1 == nil && min >= 0 && (min >> nS()) & nodeMax() == node ==> compose((*HardNode(result0)).time, (*HardNode(result0)).node, (*HardNode(result0)).step) == min && ninv((*HardNode(result0)).time, node, (*HardNode(result0)).step)
+//@   modifies lastUnixNano
+//
+//@ func NewMonoNode
+//@   property C06
+//@   requires layoutOK()
+//@   ensures #range result1 != nil <==> (node < 0 || node > nodeMax())
+//@   ensures #node result1 == nil ==> (*MonoNode(result0)).node == node && (*MonoNode(result0)).step == 0 && (*MonoNode(result0)).time == 0 && isfresh(*MonoNode(result0))
+//@   modifies
+//
+//@ guarded MonoNode.time by MonoNode.mu
+//@ guarded MonoNode.step by MonoNode.mu
+//@ monitor MonoNode.mu
+//@   invariant layoutOK() ==> 0 <= self.step && self.step <= 4095 && 0 <= self.time && self.time <= lastSince / 1000000
+//
+//@ func MonoNode.Generate
+//@   property C06
+//@   requires layoutOK() && 0 <= n.node && n.node <= nodeMax() && !held(n.mu)
+//@   ensures #fields lastSince / 1000000 <= tmax() ==> result == compose(n.time, n.node, n.step) && ninv(n.time, n.node, n.step)
+//@   ensures #increasing lastSince / 1000000 <= tmax() ==> result > compose(cs(n.time), n.node, cs(n.step))
+//@   ensures #lex lexlt(cs(n.time), cs(n.step), n.time, n.step)
+//@   ensures #frame n.node == old(n.node)
+//@   modifies n.time, n.step, lastSince
+//@   loop 1
+//@     invariant lastSince >= cs(lastSince) && now <= lastSince / 1000000 && n.time == cs(n.time) && n.step == 0
+//@     modifies lastSince
